@@ -378,6 +378,10 @@ func c20TVAtoms() []struct {
 		{"double-frac", &gpb.TypedValue{Value: &gpb.TypedValue_DoubleVal{DoubleVal: 1.5}}},
 		{"decimal-nil", &gpb.TypedValue{Value: &gpb.TypedValue_DecimalVal{}}},
 		{"decimal-empty", &gpb.TypedValue{Value: &gpb.TypedValue_DecimalVal{DecimalVal: &gpb.Decimal64{}}}},
+		// Decimal64.precision is an unconstrained uint32 on the wire; YANG stops at 18 fraction digits
+		{"decimal-prec19", &gpb.TypedValue{Value: &gpb.TypedValue_DecimalVal{DecimalVal: &gpb.Decimal64{Digits: 42, Precision: 19}}}},
+		{"decimal-prec-max", &gpb.TypedValue{Value: &gpb.TypedValue_DecimalVal{DecimalVal: &gpb.Decimal64{Digits: -1, Precision: 1<<32 - 1}}}},
+		{"leaflist-decimal-prec300", c20LL(&gpb.TypedValue{Value: &gpb.TypedValue_DecimalVal{DecimalVal: &gpb.Decimal64{Digits: 7, Precision: 300}}})},
 		{"leaflist-nil", &gpb.TypedValue{Value: &gpb.TypedValue_LeaflistVal{}}},
 		{"leaflist-empty", &gpb.TypedValue{Value: &gpb.TypedValue_LeaflistVal{LeaflistVal: &gpb.ScalarArray{}}}},
 		{"leaflist-nil-elem", c20LL(nil)},
